@@ -8,8 +8,7 @@ Import ListNotations.
 Record case := { k_in : cfg_input; k_boot_ok : bool; k_boot : list rres; k_obs : list obs; k_preds : list bool }.
 
 Definition preds_of (i : cfg_input) : list bool :=
-  [portlist_bootstrap_irregular i; portlist_conf_changed i; conf_changed_multi_then_keyword i;
-   comma_default_unsplit i; emptied_list_saved i; failed_listop_marks_pending i; edit_while_detached i].
+  [emptied_list_saved i; edit_while_detached i].
 
 Definition check (k : case) : verdict :=
   if negb (c11_scope (k_in k)) then VSkip else
